@@ -21,9 +21,11 @@ ASSUMPTIONS = [
     'fork inheritance of other invocations\' pipe ends is not modelled: with the current statement order Pipe→start→tx.close contains no await, so no other fork can happen while a write end is open in the parent',
     'process.join() blocks the event loop from the end of the child\'s send until the child has exited; the model states that this is the only synchronous wait, it does not bound its duration',
     'event loop = asyncio on selectors.EpollSelector (Linux): a closed fd silently leaves the kernel interest set but stays in the selector map',
-    'a child that lingers after its send (non-daemon thread, slow exit handler) keeps the parent inside the synchronous process.join() for that long: in scenarios '
-    'with a lingering callee the ticker check discounts the linger time (the stall of the event loop is measured and reported in the evidence as '
-    'max_event_loop_stall_s_in_linger_scenarios, see the previous assumption about join())',
+    'a child that lingers after its send (non-daemon thread, slow exit handler) keeps the parent inside the synchronous process.join() for that long, and the '
+    'event loop runs nothing else meanwhile: this violates the clause "while it is pending the event loop keeps running other tasks" and is REPORTED (finding '
+    'joinBlocksLoopWhileChildLingers; Lean: join_blocks_other_tasks / other_tasks_run_full_false; proved part other_tasks_run_partial under the guard promptExit). '
+    'In scenarios with a lingering callee the clause is judged on the longest gap between two runs of a 10 ms ticker task (no discount): a gap of at least '
+    'half the shortest linger time is a stall',
     'a callee that starts processes is compared for the value it returns; the grandchild processes themselves (children of the child) are outside the model',
 ]
 TRUSTED = [
@@ -532,13 +534,11 @@ def run_one(runner, case, env):
     r = json.loads(line[0])
     outs = [['hang'] if o[0] in ('hang', 'notrun') else o for o in r['out']]
     tick_bad = []
-    # a lingering child keeps its parent inside the synchronous join() for as long as it lingers (see ASSUMPTIONS): not counted as pending time
-    frozen_by_join = sum(s.get('linger', 0) for s in x['invs'])
+    lingers = [s['linger'] for s in x['invs'] if 'linger' in s]
     if not x.get('blocker'):
         for i, (w, k) in enumerate(zip(r['wall'], r['ticks'])):
-            w = w - frozen_by_join
             if r['out'][i][0] not in ('hang', 'notrun') and w >= 0.15 and k < max(2, int(w / 0.01 * 0.1)):
-                tick_bad.append([i, r['wall'][i], k])
+                tick_bad.append([i, w, k])
     released = None
     if not r['hang']:
         released = (r['fd_delta'] == 0 and r['children_left'] == 0 and r['open_conns'] == 0 and r['selector_delta'] == 0)
@@ -549,7 +549,7 @@ def run_one(runner, case, env):
             'pid_differs': r['pid_differs'], 'ticker_ok': not tick_bad, 'ticker_bad': tick_bad, 'order': r['order'],
             'left_after_await': r.get('left_after_await', [0] * n),
             'direct': {k: (v['out'][:2] if v['out'][0] != 'other' else ['other', v['out'][1]]) for k, v in (r.get('direct') or {}).items()},
-            'stall_s': r.get('stall', 0) if frozen_by_join else None,
+            'stall_s': r.get('stall', 0) if lingers else None,
             'errors': r['errors'], 'wall_s': round(time.time() - t0, 2)}
 
 
@@ -580,8 +580,17 @@ def judge(case, impl, model):
         why.append(f"terminates {impl['terminates']} vs model {m['terminates']}")
     if impl['terminates'] and m['terminates'] and impl['released'] != m['released']:
         why.append(f"released {impl['released']} {impl.get('resources')} vs model {m['released']}")
+    lingers = [k['linger'] for k in x['invs'] if 'linger' in k]
+    stalled = None
+    if lingers and impl.get('stall_s') is not None and not impl.get('hang'):
+        # the longest time the event loop ran no other task; a stall = at least half the shortest linger time
+        stalled = impl['stall_s'] >= 0.5 * min(lingers)
+        expected = bool(m.get('loopFrozenWhileLingering'))
+        if stalled != expected:
+            why.append(f"event loop stalled {impl['stall_s']} s (stall: {stalled}) vs model: frozen inside join behind invocation(s) {m.get('stall')}: {expected}")
     corr = not why
     pfail = None
+    finding = None
     if any(o[0] == 'runner-error' for o in impl['out']):
         pfail = f"the scenario process could not run the library at all (exit code {impl['out'][0][1]})"
     for i in range(n):
@@ -601,7 +610,7 @@ def judge(case, impl, model):
             pfail = f"invocation {i} (callee {kind}) handed its caller {o}, the property allows {s['allowed'][i]}"
         elif impl['pid_differs'][i] is False:
             pfail = f"invocation {i} ran in the parent process"
-    if not pfail and impl['ticker_ok'] is False:
+    if not pfail and impl['ticker_ok'] is False and not stalled:
         pfail = f"the event loop did not run other tasks while an invocation was pending: [invocation, wall s, ticks] {impl['ticker_bad']}"
     if not pfail and s['released'] and any(impl.get('left_after_await') or []):
         i = next(i for i, k in enumerate(impl['left_after_await']) if k)
@@ -609,10 +618,20 @@ def judge(case, impl, model):
                  + f") handed over its result while {impl['left_after_await'][i]} child process(es) it is responsible for were still there (running or un-reaped)")
     if not pfail and impl['released'] is False and s['released']:
         pfail = f"resources left behind after all invocations returned: {impl['resources']}"
+    if not pfail and stalled:
+        # every other clause holds for this scenario; the non-blocking clause does not
+        who = [i for i in range(n) if 'linger' in x['invs'][i]]
+        pfail = (f"the event loop ran no other task for {impl['stall_s']} s while invocation(s) {who} were pending (child lingers {lingers} s after its send): "
+                 f"the coroutine sits in the synchronous process.join() until the child has exited"
+                 + (f"; starved [invocation, wall s, ticks] {impl['ticker_bad']}" if impl.get('ticker_bad') else ''))
+        # the recorded region: implementation == model (outcomes, termination, resources, and the model too has the loop frozen inside join
+        # behind a lingering child) and the stall is about as long as the children linger — anything longer is something else
+        if corr and m.get('stall') and impl['stall_s'] <= sum(lingers) + 1.0:
+            finding = 'joinBlocksLoopWhileChildLingers'
     kinds = sorted({(k['callee'][0] if k['callee'][0] != 'death' else k['callee'][1]) for k in x['invs']})
     seq = any(k['pred'] is not None for k in x['invs'])
     paths = sorted(set(m.get('path', [])))
-    return {'corr': corr, 'pfail': pfail,
+    return {'corr': corr, 'pfail': pfail, 'finding': finding,
             'nontrivial': n > 1 or x['invs'][0]['callee'][0] != 'ret',
             'tag': f"n={n}{'/seq' if seq else ''}/{'+'.join(kinds)}/{'+'.join(paths)}", 'why': '; '.join(why)}
 
